@@ -86,6 +86,16 @@ class Verdict:
                     "states": 0, "transitions": 0, "traces_validated_against_impl": 0}
         self.assumptions = []
         self.notes = {}
+        import glob
+        for f in glob.glob(os.path.join(VERIF, "replays", pid + "-*.json")):
+            try:
+                os.unlink(f)
+            except OSError:
+                pass
+        try:
+            os.unlink(os.path.join(workdir(), "violations-%s.txt" % pid))
+        except OSError:
+            pass
 
     def lap(self, name):
         now = time.time()
